@@ -38,6 +38,11 @@ structure Circuit where
   hops : List Hop     -- `_hops` (verified hops, first hop first)
 deriving Repr, DecidableEq
 
+/-- endpoint decorators `ipv8_service.IPv8.__init__` can put around the base endpoint -/
+inductive Wrapper
+  | statistics | tunnel
+deriving Repr, DecidableEq
+
 /-- Python `set(a) <= set(b)` on lists -/
 def subsetB (a b : List Nat) : Bool := a.all (fun x => b.contains x)
 
